@@ -22,6 +22,7 @@ int32  g_k, g_o;       /* ghost indices */
 SYMDEF g_old_k, g_old_o; /* usym[g_k], usym[g_o] on entry */
 int    g_old_len, g_new_len; /* strlen of the current / the new name */
 int    g_old_hsz;
+char   g_old_c; /* character at ghost position g_o of the current name */
 
 /* ---------------- stubs (callees outside the unit) ---------------- */
 group_t
@@ -70,6 +71,42 @@ h4v_strdup(const char *s)
 #define strcmp(a, b)  h4v_strcmp(a, b)
 #define strdup(s)     h4v_strdup(s)
 #endif
+#if defined(H4V_CBMC) && defined(H4V_CEX) && defined(H4V_ABS_STR)
+/* counterexample mode: the harness builds names of at most NMLEN characters; for those these
+   unrolled models are exact (cbmc's own strcmp/strdup models make the search run out of memory) */
+#ifndef NMLEN
+#define NMLEN 1
+#endif
+static int
+h4v_strcmp(const char *a, const char *b)
+{
+    for (int i = 0; i <= NMLEN; i++) {
+        unsigned char x = (unsigned char)a[i], y = (unsigned char)b[i];
+        if (x != y)
+            return x < y ? -1 : 1;
+        if (x == 0)
+            return 0;
+    }
+    return 0;
+}
+static char *
+h4v_strdup(const char *s)
+{
+    char *p = malloc(NMLEN + 1);
+    if (p == NULL) {
+        g_strdup_failed = 1;
+        return NULL;
+    }
+    for (int i = 0; i <= NMLEN; i++) {
+        p[i] = s[i];
+        if (s[i] == 0)
+            break;
+    }
+    return p;
+}
+#define strcmp(a, b) h4v_strcmp(a, b)
+#define strdup(s)    h4v_strdup(s)
+#endif
 #ifdef H4V_CBMC
 /* realloc of the user symbol table: cbmc's model copies the whole array of symbolic size (not
    tractable); this model allocates a fresh block with ARBITRARY contents, copies the two ghost
@@ -90,6 +127,18 @@ h4v_realloc(void *old, size_t n)
     return p;
 }
 #define realloc(p, n) h4v_realloc(p, n)
+#endif
+
+#ifdef H4V_CBMC
+/* libc model missing from cbmc's library */
+size_t
+strnlen(const char *s, size_t maxlen)
+{
+    size_t i = 0;
+    while (i < maxlen && s[i] != 0)
+        i++;
+    return i;
+}
 #endif
 
 #include "dfconv.c"
@@ -135,6 +184,40 @@ int VSfdefine(int32 vkey, const char *field, int32 localtype, int32 order)
     __CPROVER_ensures(__CPROVER_return_value == FAIL ==> g_vs->nusym == g_old_n)
     __CPROVER_ensures((__CPROVER_return_value == FAIL && !g_strdup_failed && g_k >= 0 && g_k < g_old_n) ==>
                       SYM_SAME(g_vs->usym[g_k], g_old_k));
+
+/* ---- VSsetname / VSsetclass (vg.c): C20 "names longer than legacy fixed buffers are handled or
+   rejected without overrunning memory"; C07 the name read back is the (truncated) name set ---- */
+#define NM_KEPT (g_new_len > VSNAMELENMAX ? VSNAMELENMAX : g_new_len)
+
+int32 VSsetname(int32 vkey, const char *vsname)
+    __CPROVER_requires(ENV_WF)
+    __CPROVER_requires(vsname == NULL || (g_new_len >= 0 && vsname[g_new_len] == 0))
+    __CPROVER_requires(g_old_len >= 0 && g_old_len <= VSNAMELENMAX && g_vs->vsname[g_old_len] == 0)
+    __CPROVER_requires(g_o >= 0 && g_o <= VSNAMELENMAX && g_old_c == g_vs->vsname[g_o] && g_old_hsz == g_vs->new_h_sz)
+    /* the frame: nothing but the 65-byte name field and the two flags is written */
+    __CPROVER_assigns(g_vs->vsname, g_vs->marked, g_vs->new_h_sz)
+    __CPROVER_ensures((KEY_BAD || vsname == NULL) ==> __CPROVER_return_value == FAIL)
+    __CPROVER_ensures(!(KEY_BAD || vsname == NULL) ==> __CPROVER_return_value == SUCCEED)
+    /* always NUL-terminated, at the length of the name or at the limit */
+    __CPROVER_ensures(__CPROVER_return_value == SUCCEED ==> g_vs->vsname[NM_KEPT] == 0)
+    __CPROVER_ensures((__CPROVER_return_value == SUCCEED && g_k >= 0 && g_k < NM_KEPT) ==> g_vs->vsname[g_k] == vsname[g_k])
+    __CPROVER_ensures(__CPROVER_return_value == SUCCEED ==>
+                      (g_vs->marked == TRUE && g_vs->new_h_sz == (g_old_len < g_new_len ? TRUE : g_old_hsz)))
+    __CPROVER_ensures(__CPROVER_return_value == FAIL ==> (g_vs->vsname[g_o] == g_old_c && g_vs->new_h_sz == g_old_hsz));
+
+int32 VSsetclass(int32 vkey, const char *vsclass)
+    __CPROVER_requires(ENV_WF)
+    __CPROVER_requires(vsclass == NULL || (g_new_len >= 0 && vsclass[g_new_len] == 0))
+    __CPROVER_requires(g_old_len >= 0 && g_old_len <= VSNAMELENMAX && g_vs->vsclass[g_old_len] == 0)
+    __CPROVER_requires(g_o >= 0 && g_o <= VSNAMELENMAX && g_old_c == g_vs->vsclass[g_o] && g_old_hsz == g_vs->new_h_sz)
+    __CPROVER_assigns(g_vs->vsclass, g_vs->marked, g_vs->new_h_sz)
+    __CPROVER_ensures((KEY_BAD || vsclass == NULL) ==> __CPROVER_return_value == FAIL)
+    __CPROVER_ensures(!(KEY_BAD || vsclass == NULL) ==> __CPROVER_return_value == SUCCEED)
+    __CPROVER_ensures(__CPROVER_return_value == SUCCEED ==> g_vs->vsclass[NM_KEPT] == 0)
+    __CPROVER_ensures((__CPROVER_return_value == SUCCEED && g_k >= 0 && g_k < NM_KEPT) ==> g_vs->vsclass[g_k] == vsclass[g_k])
+    __CPROVER_ensures(__CPROVER_return_value == SUCCEED ==>
+                      (g_vs->marked == TRUE && g_vs->new_h_sz == (g_old_len < g_new_len ? TRUE : g_old_hsz)))
+    __CPROVER_ensures(__CPROVER_return_value == FAIL ==> (g_vs->vsclass[g_o] == g_old_c && g_vs->new_h_sz == g_old_hsz));
 
 #ifdef H4V_NATIVE
 #include "h4v_native_wrap.h"
@@ -250,4 +333,63 @@ h_VSfdefine(void)
     H4V_COVER(r == SUCCEED && vs->nusym == nusym, "VSfdefine redefines a symbol");
     H4V_COVER(r == FAIL && order == 70000, "VSfdefine refuses order 70000");
     H4V_CANARY("VSfdefine end");
+}
+
+/* ---- names: new name of symbolic length up to 2 x VSNAMELENMAX, arbitrary current name ---- */
+H4V_DECL_ND(uint8);
+static char *
+mk_name(VDATA *vs, char *field)
+{
+    H4V_ND(int32, nlen);
+    H4V_ND(int, name_null);
+    H4V_ASSUME(nlen >= 0 && nlen <= 2 * VSNAMELENMAX);
+    int32 la = nlen < 64 ? nlen : 64, lb = nlen - la;
+    H4V_ND_BUF(uint8, nm_a, la, 64);
+    H4V_ND_BUF(uint8, nm_b, lb, 64);
+    H4V_ND_BUF(uint8, cur, VSNAMELENMAX, 64);
+    char *nm = malloc((size_t)nlen + 1);
+    H4V_ASSUME(nm != NULL);
+    for (int i = 0; i < 64; i++) {
+        if (i < la)
+            nm[i] = (char)(nm_a[i] & 0x7f);
+        if (i < lb)
+            nm[64 + i] = (char)(nm_b[i] & 0x7f);
+    }
+    nm[nlen] = 0;
+    for (int i = 0; i < VSNAMELENMAX; i++)
+        field[i] = (char)(cur[i] & 0x7f);
+    field[VSNAMELENMAX] = 0;
+    vs->marked   = 0;
+    H4V_ND(int, hsz);
+    vs->new_h_sz = hsz;
+    g_old_hsz    = hsz;
+    g_new_len    = (int)strlen(nm);
+    g_old_len    = (int)strlen(field);
+    H4V_ASSUME(g_o >= 0 && g_o <= VSNAMELENMAX);
+    g_old_c = field[g_o];
+    return name_null ? NULL : nm;
+}
+
+void
+h_VSsetname(void)
+{
+    VDATA *vs = mk_env();
+    char  *nm = mk_name(vs, vs->vsname);
+    int32  r  = VSsetname(7, nm);
+    H4V_COVER(r == SUCCEED && g_new_len > VSNAMELENMAX, "VSsetname truncates");
+    H4V_COVER(r == SUCCEED && g_new_len < VSNAMELENMAX && g_new_len > g_old_len, "VSsetname longer name");
+    H4V_COVER(r == FAIL, "VSsetname refuses");
+    H4V_CANARY("VSsetname end");
+}
+
+void
+h_VSsetclass(void)
+{
+    VDATA *vs = mk_env();
+    char  *nm = mk_name(vs, vs->vsclass);
+    int32  r  = VSsetclass(7, nm);
+    H4V_COVER(r == SUCCEED && g_new_len > VSNAMELENMAX, "VSsetclass truncates");
+    H4V_COVER(r == SUCCEED && g_new_len < VSNAMELENMAX && g_new_len > g_old_len, "VSsetclass longer name");
+    H4V_COVER(r == FAIL, "VSsetclass refuses");
+    H4V_CANARY("VSsetclass end");
 }
